@@ -190,6 +190,16 @@ pub fn c05_parser_ops(b: &Base) -> Vec<Op> {
     }
     v.push(Op::Feed(vec!["\x08".into()], true));
     v.push(Op::Feed(vec!["\r".into()], true));
+    // long parameter lists (only the first one or two count)
+    for n in [16usize, 17, 18, 33, 100] {
+        let zeros = vec!["0"; n - 2].join(";");
+        for f in ['H', 'f'] {
+            v.push(csi(&format!("2;2;{}", zeros), f));
+        }
+        for f in ['A', 'B', 'C', 'D', 'G', 'd'] {
+            v.push(csi(&format!("2;{};0", zeros), f));
+        }
+    }
     with_poison(v)
 }
 
@@ -223,6 +233,52 @@ pub fn c05(c: &Collector, g: &mut Guard) {
         local.count("large_geometry_transitions");
         refine_all(c, "C05", "E2.depth1.large", t, local);
     });
+    // histories WITHOUT state merging (a tree, not a graph): redundant internal state (a cached
+    // flag mirroring a mode, a memoised position) that one path forgets to update is invisible to
+    // the state key, so merging would hide it. Save/restore, mode switches, margins, reset.
+    let tdepth = if c.thorough() { 7 } else { 6 };
+    let tseed = Spec {
+        geoms: vec![(3, 4)],
+        fills: vec![Fill::F0],
+        cursors: CursorSel::Home,
+        regions: RegionSel::NoRegion,
+        modesets: vec![0],
+        renditions: vec![vec![]],
+        stacks: vec![0],
+        charsets: default_charsets(),
+        hidden_cursor: false,
+    };
+    let tseeds = gen_bases(c, &tseed);
+    let st = crate::explore::bfs_nd(
+        c,
+        &tseeds,
+        tdepth,
+        6_000_000,
+        |_| {
+            vec![
+                Op::Sm(vec![6], true),
+                Op::Rm(vec![6], true),
+                Op::SaveCursor,
+                Op::RestoreCursor,
+                Op::SetMargins(Some(2), Some(3)),
+                Op::Cup(None, None),
+                Op::Cup(Some(4), Some(2)),
+                Op::Vpa(Some(1)),
+                Op::Reset,
+            ]
+        },
+        |c, t, local| {
+            if owner(t.op) == Some("C05") {
+                local.count("tree_judged");
+                refine_all(c, "C05", "E2.tree", t, local)
+            } else {
+                expand_ok(t)
+            }
+        },
+        |_| true,
+    );
+    c.bound("tree_levels_3x4", json!(st.levels));
+    c.bound("tree_depth", json!(tdepth));
     if c.thorough() {
         // 80x24 corners
         let spec80 = Spec {
@@ -271,6 +327,8 @@ pub fn c05(c: &Collector, g: &mut Guard) {
     g.need(c, "pre_region");
     g.need(c, "model_changed_state");
     g.need(c, "parser_path_transitions");
+    g.need(c, "tree_judged");
+    g.need(c, "large_geometry_transitions");
 }
 
 // =====================================================================  C07
@@ -308,6 +366,24 @@ pub fn c07(c: &Collector, g: &mut Guard) {
     sweep(c, &bases, c07_ops, |c, t, local| {
         refine_all(c, "C07", "E2.depth1", t, local);
     });
+    // every selector value the parser can deliver, from a thin set of base states
+    let thin: Vec<Base> = bases.iter().filter(|b| b.columns >= 3).step_by(if c.thorough() { 40 } else { 160 }).cloned().collect();
+    c.count("all_selector_bases", thin.len() as u64);
+    sweep(
+        c,
+        &thin,
+        |_| {
+            let mut v = Vec::with_capacity(20000);
+            for h in 0..=9999u32 {
+                v.push(Op::Ed(Some(h)));
+                v.push(Op::El(Some(h)));
+            }
+            v
+        },
+        |c, t, local| {
+            refine_all(c, "C07", "E4.all-selectors", t, local);
+        },
+    );
     let lb = large_bases(c, vec![Fill::F0, Fill::F1]);
     sweep(c, &lb, c07_ops, |c, t, local| {
         local.count("large_geometry_transitions");
@@ -494,7 +570,7 @@ pub fn c06(c: &Collector, g: &mut Guard) {
     sweep(c, &bases, c06_ops, |c, t, local| {
         refine_all(c, "C06", "E2.depth1", t, local);
     });
-    let lb = large_bases(c, vec![Fill::F0, Fill::F2]);
+    let lb = large_bases(c, vec![Fill::F0, Fill::F2, Fill::F5]);
     sweep(c, &lb, c06_ops, |c, t, local| {
         local.count("large_geometry_transitions");
         refine_all(c, "C06", "E2.depth1.large", t, local);
@@ -502,7 +578,7 @@ pub fn c06(c: &Collector, g: &mut Guard) {
     // autowrap at the bottom margin (draw at the pending-wrap column)
     let wbases: Vec<Base> = bases.iter().filter(|b| b.screen.cursor.x == b.columns).cloned().collect();
     c.count("pending_wrap_bases", wbases.len() as u64);
-    sweep(c, &wbases, |_| vec![Op::Draw("Q".into())], |c, t, local| {
+    sweep(c, &wbases, |_| vec![Op::Draw("Q".into()), Op::Draw("\u{200d}".into()), Op::Draw("\u{1161}".into()), Op::Draw("\u{308}".into()), Op::Draw("\u{30a2}".into()), Op::Feed(vec!["\u{200b}".into()], true)], |c, t, local| {
         refine_all(c, "C06", "E2.depth1.autowrap", t, local);
     });
     // BFS: sequences of scroll operations over sparse and written rows
@@ -582,7 +658,23 @@ pub fn c04_texts(c: u32) -> Vec<String> {
         " ".into(),
         "a b".into(),
         "\u{a0}~".into(),
+        // zero-width characters of several kinds: marks with combining class 0 (variation
+        // selector, enclosing mark, Thai / Devanagari vowel signs), joiners and conjoining jamo
+        "a\u{fe0f}".into(),
+        "a\u{20dd}b".into(),
+        "\u{e01}\u{e31}".into(),
+        "\u{915}\u{941}".into(),
+        "\u{200d}".into(),
+        "a\u{200c}b".into(),
+        "\u{1100}\u{1161}".into(),
+        "\u{2060}\u{feff}".into(),
+        "\u{1f600}\u{e0100}".into(),
     ];
+    if c >= 24 {
+        // long runs of plain text in ONE call (bulk paths)
+        v.push("0123456789ABCDEFGHIJ".into());
+        v.push("The quick brown fox jumps over the lazy dog 0123456789 times".chars().take((c - 2) as usize).collect());
+    }
     let mut long = String::new();
     for i in 0..(c + 1) {
         long.push(marker(30 + i as usize));
